@@ -65,7 +65,11 @@ impl TotpAlgo {
                 let mut key = HmacSha1Key::default();
 
                 if key_bytes.len() > key.as_slice().len() {
-                    return Err(TotpError::InvalidKeyError);
+                    // RFC 2104: a key longer than the block size is hashed by the MAC itself.
+                    let mut hmac = <HmacSha1 as Mac>::new_from_slice(key_bytes)
+                        .map_err(|_| TotpError::InvalidKeyError)?;
+                    hmac.update(&counter.to_be_bytes());
+                    return Ok(hmac.finalize().into_bytes().to_vec());
                 }
 
                 #[allow(clippy::indexing_slicing)]
@@ -80,7 +84,11 @@ impl TotpAlgo {
                 let mut key = HmacSha256Key::default();
 
                 if key_bytes.len() > key.as_slice().len() {
-                    return Err(TotpError::InvalidKeyError);
+                    // RFC 2104: a key longer than the block size is hashed by the MAC itself.
+                    let mut hmac = <HmacSha256 as Mac>::new_from_slice(key_bytes)
+                        .map_err(|_| TotpError::InvalidKeyError)?;
+                    hmac.update(&counter.to_be_bytes());
+                    return Ok(hmac.finalize().into_bytes().to_vec());
                 }
 
                 #[allow(clippy::indexing_slicing)]
@@ -95,7 +103,11 @@ impl TotpAlgo {
                 let mut key = HmacSha512Key::default();
 
                 if key_bytes.len() > key.as_slice().len() {
-                    return Err(TotpError::InvalidKeyError);
+                    // RFC 2104: a key longer than the block size is hashed by the MAC itself.
+                    let mut hmac = <HmacSha512 as Mac>::new_from_slice(key_bytes)
+                        .map_err(|_| TotpError::InvalidKeyError)?;
+                    hmac.update(&counter.to_be_bytes());
+                    return Ok(hmac.finalize().into_bytes().to_vec());
                 }
 
                 #[allow(clippy::indexing_slicing)]
